@@ -70,12 +70,14 @@ type c14Case struct {
 	incon  string
 
 	panicked, inApply        bool
+	nearReached              bool
+	nFetch                   int
 	leakMarkers, leakVisible int
 	leakReadyMs, leakCopyMs  float64
 
 	// evidence
 	nBackups, nRestores, nRepeat, nOther, nCompact, nReopen, nHashChecks, nPurged, nImmediate, nCmds, nLaterDumps int
-	nPurgedDuringRestore int
+	nPurgedDuringRestore                                                                                          int
 }
 
 func (cs *c14Case) logf(f string, args ...interface{}) {
@@ -501,7 +503,7 @@ func (cs *c14Case) runRandom(steps int) {
 			}
 		case w < 58:
 			if cs.Engine == "pebble" {
-				cs.a.DB().CompactAllRange()
+				compactAll(cs.a)
 				cs.nCompact++
 				cs.logf("compact all")
 				cs.checkDirs("after compaction")
@@ -614,7 +616,7 @@ func (cs *c14Case) runFileReuse() {
 		return
 	}
 	flush := func() {
-		cs.a.DB().CompactAllRange()
+		compactAll(cs.a)
 		cs.nCompact++
 		cs.logf("compact all")
 	}
@@ -810,7 +812,8 @@ func runC14(c *vc.Ctx) error {
 	c.Ev.Rule = "case = one store (pebble or mem, wait_compact or local_deletion, KeepBackup default/2/3) driven by a seeded script of: write bursts from the E3 generator (all families, HLL on dedicated keys), " +
 		"Backup(term,index)+WaitReady exactly like kvStoreSM.GetSnapshot (reference raw+logical+PFCOUNT dump recorded before the next write; variants: wait for GetResult / continue writing immediately), CompactAllRange, " +
 		"Restore of an older or the newest checkpoint, repeated restore, SetLatestSnapIndex, restore on a second diverged store after copying the checkpoint dir, clean reopen; plus a director that forces same-named sst files with different content, " +
-		"plus the large-unflushed-WAL marker scenario. Oracle: dump(after restore) == dump(at backup instant) raw and logical; sha1 of every checkpoint file unchanged after restores/compactions/writes; purge never removes a checkpoint >= latest snapshot index nor the newest one. " +
+		"plus the large-unflushed-WAL marker scenario, plus 'near-identical-sst' (A and B built by identical operation sequences, a few early keys overwritten on A only with same-length values, both compacted: B holds an sst with the name, size and tail of one in A's checkpoint), " +
+		"plus 'interrupted-fetch' (sources A and C with the same data but different engine file numbers, a partial left-over of a fetch from C in B's backup dir, then the production prepareSnapshotForStore fetch from A and Restore). Oracle: dump(after restore) == dump(at backup instant) raw and logical; sha1 of every checkpoint file unchanged after restores/compactions/writes; purge never removes a checkpoint >= latest snapshot index nor the newest one. " +
 		"non-trivial = case with >=1 restore of a checkpoint after the store had diverged from it; distinct by hash(script)"
 	c.Ev.Assume("engines pebble and mem only; rocksdb checkpoints (hard-linked sst + backup engine) are not exercised")
 	c.Ev.Assume("restore interrupted by a crash is C06's subject; here every restore runs to completion")
@@ -834,6 +837,14 @@ func runC14(c *vc.Ctx) error {
 		cs := newC14Case(c, id, "file-number-reuse")
 		cs.Engine = "pebble"
 		cases = append(cases, cs)
+		id++
+	}
+	for i := 0; i < c.Pick(6, 40); i++ {
+		cases = append(cases, newC14Case(c, id, "near-identical-sst"))
+		id++
+	}
+	for i := 0; i < c.Pick(60, 600); i++ {
+		cases = append(cases, newC14Case(c, id, "interrupted-fetch"))
 		id++
 	}
 	var mu sync.Mutex
@@ -863,6 +874,17 @@ func runC14(c *vc.Ctx) error {
 		c.Ev.Count("checkpoint_dir_hash_checks", int64(cs.nHashChecks))
 		c.Ev.Count("checkpoints_purged", int64(cs.nPurged))
 		c.Ev.Count("raw_dumps_during_running_copy", int64(cs.nLaterDumps))
+		if cs.Scenario == "near-identical-sst" {
+			if cs.nearReached {
+				c.Ev.Count("near_identical_sst_cases", 1)
+			} else {
+				c.Ev.Count("near_identical_sst_not_reached", 1)
+				if len(cs.Script) > 0 {
+					c.Ev.Set("near_identical_sst_not_reached_sample", cs.Script[len(cs.Script)-3:])
+				}
+			}
+		}
+		c.Ev.Count("fetches_through_prepareSnapshotForStore_after_interrupted_fetch", int64(cs.nFetch))
 		if cs.nRestores > 0 {
 			h := sha1.Sum([]byte(strings.Join(cs.Script, "\n")))
 			c.Ev.Nontrivial(hex.EncodeToString(h[:8]))
@@ -902,6 +924,10 @@ func runC14(c *vc.Ctx) error {
 			cs.runRandom(12 + cs.r.Intn(14))
 		case "file-number-reuse":
 			cs.runFileReuse()
+		case "near-identical-sst":
+			cs.runNearSST()
+		case "interrupted-fetch":
+			cs.runFetch()
 		}
 		finishCase(cs)
 	})
